@@ -42,7 +42,16 @@ class Check(BaseCheck):
                             dtypes=("f64", "f32", "f64"))
         # stand-alone routine
         k = 0
-        for c in gen.tria_stream(self.seed + 8, n_tri, size):
+        rs = gen.rng_for(self.seed, "c02-sliver-sa")
+        slivers = []
+        for h in (1e-5, 1e-6, 1e-7):
+            sv, st = gen.sliver(rs, h)
+            slivers += [dict(v=sv, t=np.roll(st, rot, axis=1), name="sliver", tags={"sliver"}) for rot in range(3)]
+        stream = list(gen.tria_stream(self.seed + 8, n_tri, size))
+        # every presentation at least once, on meshes with non-uniform triangle areas
+        nonuni = [c for c in stream if np.ptp(corr_fem.tri_geom(c["v"], c["t"])[4]) > 0.05 * corr_fem.tri_geom(c["v"], c["t"])[4].mean()][:len(gen.PRES)]
+        extra = [dict(c, pres=p, tags=set(c["tags"]) | {"pres:" + p}) for c, p in zip(nonuni * 3, gen.PRES) if nonuni]
+        for c in slivers + extra + stream:
             for lump in (False, True):
                 k += 1
                 v, t = c["v"], c["t"]
@@ -68,6 +77,11 @@ class Check(BaseCheck):
         for c in gen.tet_stream(self.seed + 1, 12 if self.quick else 100, "small"):
             for lump in (False, True):
                 yield corr_fem.case_dict("tet", c["v"], c["t"], lump=lump, name=c["name"])
+        rs = gen.rng_for(self.seed, "c02-sliver")
+        for h in (1e-5, 1e-6, 1e-7):
+            v, t = gen.sliver(rs, h)
+            for rot in range(3):
+                yield corr_fem.case_dict("tri", v, np.roll(t, rot, axis=1), lump=bool(rot % 2), dt="f64", name="sliver")
 
     def oracle(self, case):
         kind = case["kind"]
